@@ -44,6 +44,12 @@ func (ex *Exec) doCall(st *State, fr *Frame, c *ssa.CallCommon, dst ssa.Value, p
 // ghostSets runs the 'before' assignments for this call and returns the pending 'after' ones.
 func (ex *Exec) ghostSets(st *State, fr *Frame, c *ssa.CallCommon, when string) []*GhostSet {
 	sp := ex.Specs.Funcs[specName(fr.Fn)]
+	// a closure without a contract of its own that runs inlined (a deferred function, typically) is part
+	// of its enclosing function's body: that function's hooks see its calls too
+	for f := fr.Fn; sp == nil && f.Parent() != nil; {
+		f = f.Parent()
+		sp = ex.Specs.Funcs[specName(f)]
+	}
 	if sp == nil || len(sp.GhostSets) == 0 {
 		return nil
 	}
@@ -653,6 +659,9 @@ func (ex *Exec) builtin(st *State, fr *Frame, b *ssa.Builtin, c *ssa.CallCommon,
 		// close(ch) panics on a nil and on an already closed channel. Closedness is heap state of its own
 		// (class chanstate.closed, indexed by the channel), written only here.
 		ch := args[0].(Scalar).T
+		if ex.chanOpenOf(c.Args[0]) {
+			ex.emit(st, "immutable", ex.srcLabel(fr.Fn, pos, "close-of-open-channel"), False, pos, ex.topProps(st))
+		}
 		ex.emit(st, "nil", ex.srcLabel(fr.Fn, pos, "close"), Neq(ch, Zero), pos, []string{"C17"})
 		st.assume(Neq(ch, Zero))
 		h := st.heapGet(chanClosedClass, SArr(SInt, SBool))
